@@ -172,6 +172,13 @@ func sameExpr(a, b ssa.Value) bool {
 	case *ssa.BinOp:
 		y, ok := b.(*ssa.BinOp)
 		return ok && x.Op == y.Op && sameExpr(x.X, y.X) && sameExpr(x.Y, y.Y)
+	case *ssa.Slice:
+		y, ok := b.(*ssa.Slice)
+		if !ok || !sameExpr(x.X, y.X) {
+			return false
+		}
+		eq := func(p, q ssa.Value) bool { return (p == nil && q == nil) || (p != nil && q != nil && sameExpr(p, q)) }
+		return eq(x.Low, y.Low) && eq(x.High, y.High) && eq(x.Max, y.Max)
 	case *ssa.Call:
 		y, ok := b.(*ssa.Call)
 		if !ok {
